@@ -16,7 +16,7 @@ RULE = ("every fault kind of the catalogue that has an unambiguous culprit token
         "the planting file and the culprit token's line and column computed by an independent expander (a tab = 4 columns); for kinds "
         "with two defensible readings the column may be the statement start or the operand start. The same positions are read back from "
         "the text of --report-format=bare, and the default graphical format is parsed: every source line shown under a file name must be "
-        "that line of that file and every highlight the text at that column (also for 55 diagnostics whose spans lie in two files). A "
+        "that line of that file and every highlight the text at that column (also for 64 diagnostics whose spans lie in two files: the report, graphical and bare, starts with the file of the culprit statement whatever the alphabetical order of the file names). A "
         "legal statement with the same mnemonic follows every planted fault (in the same and in a further linked file), and branch faults "
         "also come with forward targets. state = (fault, slot, prefix, location); non-trivial = distinct state")
 ASSUMPTIONS = ["culprit column of pdpmc/faults.py (natural reading of each message; DESIGN.md Appendix C)", "secondary spans are only checked by the universal oracle"]
@@ -233,6 +233,16 @@ for _i in range(0, 4):
     TWO_FILE.append(("undefined-in-second-%d" % _i, [("a.mac", "\tnop\n"), ("b.mac", "".join("\tnop\n" for _ in range(_i + 4)) + "\tclr nosuch\n")], {}, 1))
 
 
+# the file whose statement is the culprit (the later of two conflicting statements): the report starts with that file,
+# whatever the alphabetical order of the file names is
+CULPRIT_FILE = {"dup-export": "b.mac", "link-twice": "b.mac", "dup-export-include": "a.mac", "dup-export-swapped": "a.mac", "link-twice-swapped": "a.mac", "dup-export-include-z": "z.mac"}
+for _i in range(0, 3):
+    TWO_FILE.append(("dup-export-swapped-%d" % _i, [("b.mac", "".join("\tnop\n" for _ in range(_i)) + "dupx::\tnop\n"), ("a.mac", "first:\tnop\ndupx::\tclr r0\n")], {}, 2))
+    TWO_FILE.append(("link-twice-swapped-%d" % _i, [("b.mac", "\t.link 2000\n\tnop\n"), ("a.mac", "".join("\tnop\n" for _ in range(_i + 1)) + "\t.link 3000\n")], {}, 2))
+    TWO_FILE.append(("dup-export-include-z-%d" % _i, [("z.mac", "".join("\tnop\n" for _ in range(_i)) + "\t.include \"h.mac\"\n\tnop\ndupy::\tnop\n")],
+                     {"h.mac": "\tnop\n\tnop\ndupy::\thalt\n"}, 2))
+
+
 def check(case, r, tier):
     if case["k"] in ("graphical", "graphical-one"):
         for name, files, tree, nfiles in TWO_FILE:
@@ -249,6 +259,17 @@ def check(case, r, tier):
                     probs.append(("graphical-no-report", "exit %r and %d sections" % (co.exit, len(secs))))
                 elif len(set(sec["file"] for sec in secs)) < nfiles:
                     probs.append(("graphical-missing-file-section", "the diagnostic has spans in %d files, sections are shown for %s" % (nfiles, sorted(set(sec["file"] for sec in secs)))))
+                want_first = CULPRIT_FILE.get(name.rsplit("-", 1)[0])
+                if want_first and secs and not probs and not secs[0]["file"].endswith("/" + want_first):
+                    probs.append(("graphical-starts-with-other-file", "the culprit statement is in %s, the report starts with %s" % (want_first, secs[0]["file"].rsplit("/", 1)[-1])))
+                if want_first and not probs:
+                    cb = driver.cli([n for n, _t in files] + ["-o", "x.bin", "--report-format", "bare"], cli_tree, keep=True)
+                    try:
+                        m = re.search(r"^(.*?):(\d+):(\d+): Error: ", cb.stdout.decode("utf-8", "replace"), re.M)
+                        if not m or not m.group(1).endswith("/" + want_first):
+                            probs.append(("bare-starts-with-other-file", "the culprit statement is in %s, the bare report says %s" % (want_first, m.group(0) if m else None)))
+                    finally:
+                        shutil.rmtree(cb.root, ignore_errors=True)
                 r.ran("ok" if not probs else "bad", key=("graphical", name))
                 seen = set()
                 for sig, what in probs:
